@@ -1281,7 +1281,12 @@ status_t Message :: Unflatten(DataUnflattener & unflat)
    }
 
    Clear(true);
-   MRETURN_ON_ERROR(_entries.EnsureSize(numEntries, true));
+
+   // (numEntries) is only what the buffer claims:  presize the table for a modest number of entries at most and let it grow
+   // as entries actually arrive.  (Otherwise nested Messages that each declare as many entries as their bytes could possibly hold
+   // would make us reserve one buffer-sized table per nesting level, since the nested buffers all overlap)
+   const uint32 maxPresizedEntries = 32;
+   MRETURN_ON_ERROR(_entries.EnsureSize(muscleMin(numEntries, maxPresizedEntries), true));
 
    this->what = tempWhat;
 
